@@ -311,7 +311,7 @@ def oracle(line, impl_line):
     are compared as a multiset."""
     mode, code, cap, pre, text, extra = split_case(line)
     o = parse_out(impl_line)
-    if o is None or o == [[888888]]:
+    if o is None or o == [[18446744073710440504]]:
         return "implementation crashed or panicked"
     if text is None:
         return True if o == [[2]] else "status code %d is not constructible, got %s" % (code, o)
